@@ -433,6 +433,20 @@ func (c *evalCtx) ident(name string) EV {
 			return EV{V: f.params[i]}
 		}
 	}
+	if name == "self" && f.fn.Signature.Recv() != nil && len(f.params) > 0 {
+		return EV{V: f.params[0]}
+	}
+	if strings.HasPrefix(name, "arg") {
+		var k int
+		if _, err := fmt.Sscanf(name, "arg%d", &k); err == nil {
+			if f.fn.Signature.Recv() != nil {
+				k++
+			}
+			if k < len(f.params) {
+				return EV{V: f.params[k]}
+			}
+		}
+	}
 	if c.results != nil && name == "err" {
 		res := f.fn.Signature.Results()
 		if n := res.Len(); n > 0 && types.Identical(res.At(n-1).Type(), errorType()) {
@@ -815,6 +829,37 @@ func (c *evalCtx) callExpr(n *ECall) EV {
 				k = c.litTo(k.Lit, mt.Key(), false)
 			}
 			return boolEV(e.mapHas(c.st, m.V, k.V.Terms[0]))
+		case "declared":
+			// declared(x): x equals one of the constants of its (named) type declared in that type's package
+			a := c.eval(n.Args[0])
+			named, ok := types.Unalias(a.V.Typ).(*types.Named)
+			if !ok {
+				c.fail("declared() needs a value of a named type")
+			}
+			var alts []*smt.Term
+			sc := named.Obj().Pkg().Scope()
+			for _, nm := range sc.Names() {
+				k, ok := sc.Lookup(nm).(*types.Const)
+				if !ok || !types.Identical(k.Type(), named) {
+					continue
+				}
+				kv := c.object(k)
+				alts = append(alts, cx.Eq(a.V.Terms[0], kv.V.Terms[0]))
+			}
+			if len(alts) == 0 {
+				c.fail("type %v has no declared constants", named)
+			}
+			return boolEV(cx.Or(alts...))
+		case "isliteral":
+			// isliteral(s): s is one of the string literals of the program text seen so far (not a formatted string)
+			a := c.eval(n.Args[0])
+			var alts []*smt.Term
+			for _, lit := range e.strLitOrder {
+				if lit != "" {
+					alts = append(alts, cx.Eq(a.V.Terms[0], e.strLits[lit]))
+				}
+			}
+			return boolEV(cx.Or(alts...))
 		case "same":
 			a, b := c.eval(n.Args[0]), c.eval(n.Args[1])
 			if a.Lit != nil {
